@@ -583,8 +583,8 @@ def _mods():
     from . import C05, C06, C07, C08, C09, C10, C11, C12, C13, C14, C15, C17, C18, C19, C20
     M = {}
 
-    def add(qual, module, src, why, nested=(), normalize=None):
-        M[qual] = dict(module=module, src=src, why=why, nested=tuple(nested), normalize=normalize)
+    def add(qual, module, src, why, nested=(), normalize=None, alts=()):
+        M[qual] = dict(module=module, src=src, why=why, nested=tuple(nested), normalize=normalize, alts=tuple(alts))
     add('cooler.create._create.create', 'cooler.create._create', C13.REF_CREATE, 'reference model of create() (see C13)')
     add('cooler.create._create.write_info', 'cooler.create._create', C13.REF_WRITE_INFO, 'attributes written in one update, magic included')
     add('cooler.create._create.create_from_unordered', 'cooler.create._create', C06.REF_UNORDERED, 'two-pass external sort (see C06)')
@@ -618,7 +618,8 @@ def _mods():
     add('cooler.util.parse_region', 'cooler.util', C19.REF_PARSE_REGION, 'region defaults and refusals (see C19)')
     add('cooler.util.parse_cooler_uri', 'cooler.util', C15.REF_URI, 'URI split (see C15)')
     add('cooler.util.get_chromsizes', 'cooler.util', C20.REF_CHROMSIZES, 'chromosome lengths from last bins (see C20)')
-    add('cooler.util.binnify', 'cooler.util', C20.REF_BINNIFY, 'fixed-width binning (see C20)', nested=[('_each', '_each')])
+    add('cooler.util.binnify', 'cooler.util', C20.REF_BINNIFY, 'fixed-width binning (see C20)', nested=[('_each', '_each')],
+        alts=[C20.REF_BINNIFY_LOOP])
     add('cooler.util.GenomeSegmentation.__init__', 'cooler.util', C05.REF_GS_INIT, 'offset tables (see C05)')
     add('cooler.util.partition', 'cooler.util', C11.REF_PARTITION, 'interval partition (see C11)')
     add('cooler.parallel.split', 'cooler.parallel', C11.REF_SPLIT, 'split (see C11)')
@@ -956,6 +957,19 @@ def run_for(ctx, prop):
         if already:
             continue
         fa = ctx.fa(qual)
+        # accepted alternative skeletons (a reference without nested helpers for a function that no longer has any)
+        if r.get('alts') and not fa.nested:
+            accepted = False
+            for alt in r['alts']:
+                mark = len(ctx.obligations)
+                compare(ctx, rule, fa, alt, module=r['module'], why=r['why'] + ' [alternative skeleton]', normalize=r.get('normalize'))
+                if all(ob['status'] == 'discharged' for ob in ctx.obligations[mark:]):
+                    accepted = True
+                    break
+                del ctx.obligations[mark:]
+            if accepted:
+                n += 1
+                continue
         if r['nested']:
             ref = analyze_source(ctx.repo, r['module'], r['src'])
             compare(ctx, rule, fa, None, ref_fa=ref, why=r['why'], normalize=r.get('normalize'))
